@@ -476,6 +476,8 @@ func runC09(c *Ctx) {
 
 	c09Bookkeeping(c, t)
 	c09Unjournaled(c, t)
+	c09FrozenEntries(c, c.W)
+	c09QueueUndo(c, c.W)
 }
 
 // c09Bookkeeping: the journal's own bookkeeping that revert exactness rests on.
@@ -1133,4 +1135,160 @@ func statGuards(fn *ssa.Function) map[string]bool {
 		}
 	}
 	return out
+}
+
+// c09FrozenEntries (J10): the delegation entries of a record the journal keeps
+// are frozen too. PartialCopy gives a new record that SHARES the entries of
+// the old one; whoever edits an entry's amounts in place (big.Int mutators on
+// DelegationFrom.Token / Stake, also through a closure that receives them as
+// arguments) must work on a record obtained with DeepCopy.
+func c09FrozenEntries(c *Ctx, w *World) {
+	c.Rule("C09.J10", "TYPESTATE", "the delegation entries of a journaled validator record are frozen: in package staking an in-place edit of an entry's amounts (a mutating big.Int method on DelegationFrom.Token / Stake, also inside a closure that receives them as arguments) acts on an entry of a record obtained with DeepCopy — PartialCopy shares the *DelegationFrom entries with the record that becomes the journal's pre-image, so a penalty applied through it survives RevertToSnapshot in the entry (495 instead of 500) while totals and statistics are restored")
+	c.Min(1)
+	mutators := map[string]bool{"Set": true, "Sub": true, "Add": true, "Mul": true, "Div": true, "Quo": true, "Rem": true, "Mod": true, "SetUint64": true, "SetInt64": true, "SetBytes": true, "Neg": true, "Lsh": true, "Rsh": true, "QuoRem": true, "DivMod": true}
+	dfT := w.Named(statePkg, "DelegationFrom")
+	isEntryField := func(v ssa.Value) (ssa.Value, bool) {
+		f, base := loadedField(stripConvNoBind(v))
+		if f == nil || base == nil {
+			return nil, false
+		}
+		if !types.Identical(deref(base.Type()), dfT) {
+			return nil, false
+		}
+		return base, true
+	}
+	n := 0
+	for _, fn := range w.FuncsIn("staking") {
+		if fn.Blocks == nil || fn.Parent() != nil || strings.HasSuffix(w.fileOf(fn.Pos()), "_test.go") {
+			continue
+		}
+		all := withClosures(fn)
+		// bindings of closure parameters to the arguments at their call sites inside fn (and its closures)
+		binds := map[*ssa.Parameter][]ssa.Value{}
+		for _, x := range all {
+			for _, ci := range callInstrs(x) {
+				var callee *ssa.Function
+				switch v := ci.Common().Value.(type) {
+				case *ssa.Function:
+					callee = v
+				case *ssa.MakeClosure:
+					callee, _ = v.Fn.(*ssa.Function)
+				case *ssa.UnOp:
+					// a closure kept in a local variable: its single store
+					if al, ok := v.X.(*ssa.Alloc); ok {
+						for _, r := range *al.Referrers() {
+							if st, isSt := r.(*ssa.Store); isSt && st.Addr == ssa.Value(al) {
+								if mc, isMC := st.Val.(*ssa.MakeClosure); isMC {
+									callee, _ = mc.Fn.(*ssa.Function)
+								}
+							}
+						}
+					}
+				}
+				if callee == nil || callee.Parent() == nil {
+					continue
+				}
+				for i, prm := range callee.Params {
+					if i < len(ci.Common().Args) {
+						binds[prm] = append(binds[prm], ci.Common().Args[i])
+					}
+				}
+			}
+		}
+		for _, x := range all {
+			for _, ci := range callInstrs(x) {
+				o := calleeObj(ci)
+				if o == nil || o.Pkg() == nil || o.Pkg().Path() != "math/big" || recvName(o) != "Int" || !mutators[o.Name()] {
+					continue
+				}
+				r := callRecv(ci)
+				if r == nil {
+					continue
+				}
+				// the receiver, resolved through closure parameters
+				cands := []ssa.Value{stripConvNoBind(r)}
+				if p, isP := cands[0].(*ssa.Parameter); isP {
+					cands = nil
+					for _, a := range binds[p] {
+						cands = append(cands, stripConvNoBind(a))
+					}
+				}
+				for _, cv := range cands {
+					entry, ok := isEntryField(cv)
+					if !ok {
+						continue
+					}
+					n++
+					c.sites++
+					c.sawFunc(fname(fn))
+					// the record the entry belongs to: which copy functions produced it?
+					deep, shared := false, ""
+					backward(entry, func(v ssa.Value) bool {
+						if cc, isCall := v.(*ssa.Call); isCall {
+							if co := calleeObj(cc); co != nil {
+								switch co.Name() {
+								case "DeepCopy":
+									deep = true
+								case "PartialCopy":
+									shared = "PartialCopy"
+								default:
+									if strings.HasPrefix(co.Name(), "GetValidator") && shared == "" {
+										shared = co.Name()
+									}
+								}
+							}
+							return false
+						}
+						return true
+					})
+					okE := deep && shared != "PartialCopy"
+					c.Check(fmt.Sprintf("%s#entry-edited-in-place-%d", fname(fn), n), ci.Pos(), okE, ifelse(okE, "the entry belongs to a DeepCopy", "an amount of a delegation entry is changed in place ("+o.Name()+") on a record obtained with "+ifelse(shared != "", shared, "no DeepCopy")+": the entry is shared with the record the journal keeps as pre-image, so a revert restores totals and statistics but not the entry"))
+				}
+			}
+		}
+	}
+	if n == 0 {
+		c.Undecided("staking#delegation-entry-edits", token.NoPos, "no in-place edit of a DelegationFrom amount found in package staking (takePenalty is expected)")
+	}
+}
+
+// c09QueueUndo (J11): removing records from the withdraw queue by position is
+// undone at those positions.
+func c09QueueUndo(c *Ctx, w *World) {
+	c.Rule("C09.J11", "MIRROR", "the withdraw queue is an ordered list that is part of the validator root: the undo of RemoveWithdrawRecords — a removal by position — puts the records back where they were (it restores the previous list or inserts at recorded positions); re-adding them with the queue's append (Add) brings them back at the end in reverse order, so after RevertToSnapshot the queue, and with it the validator root, differs from the snapshot")
+	c.Min(1)
+	rm := w.Fn(statePkg, "StateDB", "RemoveWithdrawRecords")
+	c.sawFunc(fname(rm))
+	appendObj := w.FuncObj(statePkg, "journal", "append")
+	n := 0
+	for _, fn := range withClosures(rm) {
+		for _, ci := range callInstrs(fn) {
+			o := calleeObj(ci)
+			if o == nil || o.Name() != "append" || !(sameFunc(o, appendObj) || recvName(o) == "journal") {
+				continue
+			}
+			args := callArgs(ci)
+			if len(args) != 1 {
+				continue
+			}
+			for _, alt := range entryAlternatives(args[0]) {
+				rev := lookupMethod(w, stripConv(alt.Val).Type(), "revert")
+				if rev == nil {
+					continue
+				}
+				n++
+				c.sites++
+				appendsBack := ""
+				for _, cj := range callInstrs(rev) {
+					if oj := calleeObj(cj); oj != nil && oj.Name() == "Add" && recvName(oj) == "WithdrawQueue" {
+						appendsBack = w.Pos(cj.Pos())
+					}
+				}
+				c.Check(fname(rm)+"#undo-restores-positions", rev.Pos(), appendsBack == "", ifelse(appendsBack == "", "the undo does not append", "the undo of a removal by position re-adds the record with WithdrawQueue.Add (append) at "+appendsBack+": removing positions [1,2] of [a b c d] and reverting gives [a d c b]"))
+			}
+		}
+	}
+	if n == 0 {
+		c.Undecided(fname(rm)+"#undo-restores-positions", rm.Pos(), "no journal entry appended by RemoveWithdrawRecords was found")
+	}
 }
